@@ -74,8 +74,14 @@ void harness(void) {
      *   |ds * (t - utc[w]) - off * dt| <= ds      and      |dt * (s - sid[w]) - toff * ds| <= dt                     */
     if (n >= 2 && w + 1 < n) {
         int64_t ds_ = sid[w + 1] - sid[w], dt_ = utc[w + 1] - utc[w];
+#ifdef TICK_EXTRAP
+        /* n == 2: ids before the first and after the last pair extrapolate from the only segment, same oracle with off outside [0, ds] */
+        SYM_I32(off);
+        ASSUME(off >= -(1 << VBITS) && (int64_t) off <= ds_ + (1 << VBITS));
+#else
         SYM_U32(off);
         ASSUME((int64_t) off <= ds_);
+#endif
         rc = jls_tmap_sample_id_to_timestamp(m, sid[w] + off, &t);
         int64_t e1 = ds_ * (t - utc[w]) - (int64_t) off * dt_;
         CHECK(rc == 0 && e1 <= ds_ && e1 >= -ds_, "interpolated time is within one tick of the exact linear value (anchors of any magnitude)");
